@@ -172,7 +172,8 @@ class ArrayReductionBaseTrans(Transformation, ABC):
 
         # If the lhs symbol is used anywhere on the assignment rhs, we need
         # to create a temporary, and for this we need to resolve its datatype
-        for rhs_reference in assignment.rhs.walk(Reference):
+        for rhs_reference in (assignment.rhs.walk(Reference) +
+                              assignment.lhs.walk(Reference)[1:]):
             if rhs_reference.symbol is assignment.lhs.symbol:
                 if not (isinstance(assignment.lhs.symbol, DataSymbol) and
                         isinstance(assignment.lhs.datatype, ScalarType)):
@@ -199,6 +200,7 @@ class ArrayReductionBaseTrans(Transformation, ABC):
 
         orig_lhs = node.ancestor(Assignment).lhs.copy()
         orig_rhs = node.ancestor(Assignment).rhs.copy()
+        node_path = node.path_from(node.ancestor(Assignment).rhs)
 
         # Determine whether the assignment is an increment (as we have
         # to use a temporary if so) e.g. x = x + MAXVAL(a) and store a
@@ -206,7 +208,8 @@ class ArrayReductionBaseTrans(Transformation, ABC):
         # use.
         lhs_symbol = orig_lhs.symbol
         increment = False
-        for rhs_reference in orig_rhs.walk(Reference):
+        for rhs_reference in (orig_rhs.walk(Reference) +
+                              orig_lhs.walk(Reference)[1:]):
             if rhs_reference.symbol is lhs_symbol:
                 increment = True
         if increment:
@@ -297,7 +300,10 @@ class ArrayReductionBaseTrans(Transformation, ABC):
         # pylint: disable=import-outside-toplevel
         from psyclone.psyir.transformations import ArrayAssignment2LoopsTrans
         try:
-            ArrayAssignment2LoopsTrans().apply(assignment)
+            # The temporary assignment is only used to create the loops, so
+            # its lhs may overlap with its rhs.
+            ArrayAssignment2LoopsTrans().apply(
+                assignment, {"allow_overlap": True})
         except TransformationError as err:
             # The ArrayAssignment2LoopsTrans could fail to convert the ranges,
             # unfortunately this can not be tested before modifications to the
@@ -371,16 +377,18 @@ class ArrayReductionBaseTrans(Transformation, ABC):
         rhs = self._init_var(lhs)
         assignment = Assignment.create(lhs, rhs)
         outer_loop.parent.children.insert(outer_loop.position, assignment)
-        if not (isinstance(orig_rhs, IntrinsicCall) and
-                orig_rhs.intrinsic is self._INTRINSIC_TYPE):
-            # The intrinsic call is not the only thing on the rhs of
-            # the expression, so we need to deal with the additional
-            # computation.
+        if increment or node_path:
+            # The result is in a temporary or the intrinsic call is not
+            # the only thing on the rhs of the expression, so we need to
+            # deal with the additional computation.
             rhs = orig_rhs.copy()
-            for child in rhs.walk(IntrinsicCall):
-                if child.intrinsic is self._INTRINSIC_TYPE:
-                    child.replace_with(new_lhs.copy())
-                    break
+            if node_path:
+                child = rhs
+                for position in node_path:
+                    child = child.children[position]
+                child.replace_with(new_lhs.copy())
+            else:
+                rhs = new_lhs.copy()
             assignment = Assignment.create(orig_lhs.copy(), rhs)
             outer_loop.parent.children.insert(
                 outer_loop.position+1, assignment)
